@@ -900,6 +900,25 @@ fn gen_case(family: &str, r: &mut Rng) -> Case {
             let n = input.chars().count() + 2;
             Case { family: family.into(), modes: vec![ModeSpec { name: "M0".into(), pats, trans: vec![] }], input, start_offset: start, ops: vec![Op::Next; n], with_positions: false }
         }
+        "large" => {
+            // C17: an automaton with more than 65 535 states (and as many minimizer groups): np patterns `<two letters> x{rep}` with distinct token types;
+            // input: some keywords in full (one token each) and the same keywords one character short (no token)
+            let np = 256 + r.below(6);
+            let rep = 257 + r.below(4);
+            let mut pats: Vec<PatSpec> = vec![];
+            let key = |i: usize| format!("{}{}", (b'a' + (i / 26) as u8) as char, (b'a' + (i % 26) as u8) as char);
+            for i in 0..np { pats.push(PatSpec { p: format!("{}x{{{}}}", key(i), rep), tt: i, la: None }); }
+            let mut input = String::new();
+            for _ in 0..3 {
+                let i = r.below(np);
+                input.push_str(&key(i)); input.push_str(&"x".repeat(rep));
+                let j = r.below(np);
+                input.push_str(&key(j)); input.push_str(&"x".repeat(rep - 1));
+                input.push('\n');
+            }
+            input.push_str(&key(np - 1)); input.push_str(&"x".repeat(rep));
+            Case { family: family.into(), modes: vec![ModeSpec { name: "M0".into(), pats, trans: vec![] }], input, start_offset: 0, ops: vec![Op::Next; 12], with_positions: false }
+        }
         "modes" | "peek" | "offset" | "isolation" => {
             let nm = 1 + r.below(4);
             let mut modes = vec![];
